@@ -417,7 +417,7 @@ def r4_4(prog, rep):
             str([unparse(s.value) for s in st]), f"numeric value is computed as {[unparse(s.value) for s in st]}: arithmetic or re-ordering on the way into the matrix")
     for q in ("terms.variable.Variable.eval_new_data_numeric", "terms.call.Call.eval_new_data_numeric"):
         f = prog.fn(q)
-        x = f.params[1]
+        x = f.params[0] if getattr(f, "is_staticmethod", False) else f.params[1]
         rets = [n for n in walk_local(f.node) if isinstance(n, ast.Return)]
         ok = len(rets) == 1 and _repr_only(rets[0].value, x)
         obl(rep, f, rets[0] if rets else f.node, "R4.4", ok, "new numeric value = the new column through representation changes only",
